@@ -233,6 +233,14 @@ def run(ctx):
 
     d9_param_staging(db, rep)
 
+    # D10: the region counters the split emitters compute tile ex->n on every path of the emitted code
+    import emitsym
+    n10 = 0
+    for nm in ("orc_x86_emit_split_2_regions", "orc_x86_emit_split_3_regions"):
+        n10 += emitsym.check_tiling(db.func(nm, "orcprogram-x86"), rep, "D10-REGION-TILING", where)
+    if n10 < 3:
+        raise AnalysisBroken("only %d emitted paths found in the region split emitters" % n10)
+
     # D6: registers parked around a scalar fallback come back unswapped (they hold the array pointers)
     from x86enc import check_save_restore
     xf = [f for f in db.all_functions() if f.relfile.startswith("orc/orcrules-") and ("sse" in f.relfile or "mmx" in f.relfile or "avx" in f.relfile)]
